@@ -746,7 +746,7 @@ pub fn run_c24(ctx: &Ctx) -> i32 {
         "with exec-bit-change=ignore the executable bit on disk is not compared (it follows the \
          previous on-disk state by design)",
     );
-    let n = ctx.tier().pick(900, 60_000);
+    let n = ctx.tier().pick(3_600, 60_000);
     par_cases(ctx, n, threads(), |i, cs, rng| {
         let settings = WcSettings::random(rng);
         let pool = r#gen::line_pool(rng, rng.clone().range(3, 6), rng.clone().chance(1, 3));
@@ -1094,7 +1094,7 @@ pub fn run_c29(ctx: &Ctx) -> i32 {
          snapshot (it is normalized to LF by design) nor, for input-output, about the disk bytes; \
          counted, not enforced",
     );
-    let n = ctx.tier().pick(2_500, 150_000);
+    let n = ctx.tier().pick(10_000, 150_000);
     par_cases(ctx, n, threads(), |i, cs, rng| {
         let eol = *rng.pick(&["none", "input", "input", "input-output", "input-output", "input-output"]);
         let settings = WcSettings { eol, exec: "auto", style: "diff" };
@@ -1290,7 +1290,7 @@ pub fn run_c25(ctx: &Ctx) -> i32 {
          entry. Non-trivial: at least one wanted path was blocked by a planted entry. Distinct: by \
          (A, B, plants, settings).",
     );
-    let n = ctx.tier().pick(1_500, 100_000);
+    let n = ctx.tier().pick(7_500, 100_000);
     par_cases(ctx, n, threads(), |i, cs, rng| {
         let settings = WcSettings::random(rng);
         let pool = r#gen::line_pool(rng, rng.clone().range(3, 6), false);
@@ -2328,7 +2328,7 @@ pub fn run_c06(ctx: &Ctx) -> i32 {
         "function level is restricted to merges whose simplified form has >= 2 sides (a one-sided \
          simplified merge is resolved by the tree merge and never reaches write_conflict)",
     );
-    let n = ctx.tier().pick(12_000, 1_200_000);
+    let n = ctx.tier().pick(48_000, 1_200_000);
     par_cases(ctx, n, threads(), |i, cs, rng| {
         if i % 6 == 5 {
             c06_wc_case(ctx, i, cs, rng);
